@@ -4,7 +4,7 @@ From Coq Require Import Ascii String.
 From Coq Require Import List ZArith NArith Bool Lia.
 From Coq.Strings Require Import Byte.
 From OgRek Require Import Base Utf8 GoStrconv PyQuote Float Value PyEq Dict Reader Decoder Typeconv Encoder Norm.
-From OgRek Require Import BaseFacts ReaderFacts CodecFacts IntFacts DecoderFacts EncoderFacts ExecFacts Utf8Facts QuoteFacts.
+From OgRek Require Import BaseFacts ReaderFacts CodecFacts IntFacts DecoderFacts EncoderFacts ExecFacts Utf8Facts QuoteFacts RueFacts.
 Import ListNotations.
 Open Scope N_scope.
 
@@ -268,6 +268,15 @@ Lemma push_float_text_leaf : forall cfg t b, no_lf t -> parse_float t = PFok b -
   pushes_leaf cfg (x46 :: t ++ [x0a]) (TFloat b).
 Proof.
   intros cfg t b Hn Hp i st rest. cbn [app]. rewrite <- app_assoc. cbn [app].
+  eexists; eexists; eexists. split.
+  - eapply exec_one; [reflexivity|reflexivity|]. cbn [handler run]. rewrite (split_line_exact _ rest Hn), Hp. reflexivity.
+  - repeat split; try reflexivity; cbn; lia.
+Qed.
+
+Lemma push_unicode_text_leaf : forall cfg e u, no_lf e -> pydecode_raw_unicode_escape e = Ok u ->
+  pushes_leaf cfg (x56 :: e ++ [x0a]) (TStr u).
+Proof.
+  intros cfg e u Hn Hp i st rest. cbn [app]. rewrite <- app_assoc. cbn [app].
   eexists; eexists; eexists. split.
   - eapply exec_one; [reflexivity|reflexivity|]. cbn [handler run]. rewrite (split_line_exact _ rest Hn), Hp. reflexivity.
   - repeat split; try reflexivity; cbn; lia.
@@ -755,6 +764,15 @@ Section RT.
   Qed.
 
   (* protocol 0 included *)
+  Lemma rt_unicode' : forall s, uni_fits c s = true -> good (enc_unicode c s) (TStr s).
+  Proof.
+    intros s H. unfold uni_fits in H. destruct (1 <=? e_proto c)%Z eqn:Hp.
+    - apply Z.leb_le in Hp. unfold len32 in H. apply N.ltb_lt in H. exact (rt_unicode s Hp H).
+    - unfold enc_unicode. rewrite Hp. cbv zeta. destruct (pyencode_raw_unicode_escape s) as [e|] eqn:E; [|discriminate].
+      destruct (rue_roundtrip s e E) as [D Nl]. apply good_emit. apply pushes_of_leaf.
+      apply push_unicode_text_leaf; assumption.
+  Qed.
+
   Lemma rt_bytestring' : forall s, bstr_fits c s = true -> good (enc_bytestring c s) (bstr_t c s).
   Proof.
     intros s H. unfold bstr_fits in H. destruct (1 <=? e_proto c)%Z eqn:Hp.
@@ -775,8 +793,7 @@ Section RT.
   Lemma rt_string' : forall s, str_fits c s = true -> good (enc_string c s) (TStr s).
   Proof.
     intros s H. unfold str_fits in H. unfold enc_string. destruct (e_strict c || (3 <=? e_proto c)%Z) eqn:E.
-    - unfold uni_fits in H. apply andb_true_iff in H. destruct H as [Hp Hl]. apply Z.leb_le in Hp.
-      unfold len32 in Hl. apply N.ltb_lt in Hl. apply rt_unicode; assumption.
+    - apply rt_unicode'. exact H.
     - apply orb_false_iff in E. destruct E as [Es _]. pose proof (rt_bytestring' s H) as R.
       unfold bstr_t in R. rewrite Es in R. exact R.
   Qed.
@@ -862,13 +879,12 @@ Section RT.
     - unfold len32 in H. apply N.ltb_lt in H. destruct (Nlen s <? 256) eqn:E.
       + apply good_emit2. apply N.ltb_lt in E. exact (push_short_binbytes cfg s E).
       + apply good_emit2. exact (push_binbytes cfg s H).
-    - apply andb_true_iff in H. destruct H as [Hp Hl]. apply Z.leb_le in Hp. unfold len32 in Hl. apply N.ltb_lt in Hl.
-      unfold wrap_call.
+    - unfold wrap_call.
       assert (CO : class_ok c (bs "_codecs") (bs "encode") = true) by (apply class_ok_small; reflexivity).
       destruct (rt_class _ _ CO) as [Wc Pc].
-      destruct (rt_unicode (latin1_to_utf8 s) Hp Hl) as [Wu Pu].
-      assert (L6 : Nlen (bs "latin1") < 4294967296) by reflexivity.
-      destruct (rt_bytestring (bs "latin1") Hp L6) as [Wb Pb].
+      destruct (rt_unicode' (latin1_to_utf8 s) H) as [Wu Pu].
+      assert (L6 : bstr_fits c (bs "latin1") = true) by (unfold bstr_fits; destruct (1 <=? e_proto c)%Z; reflexivity).
+      destruct (rt_bytestring' (bs "latin1") L6) as [Wb Pb]. unfold bstr_t in Pb.
       set (tl := if e_strict c then TBStr (bs "latin1") else TStr (bs "latin1")) in *.
       assert (GM : good_many (wseq (enc_unicode c (latin1_to_utf8 s)) (enc_bytestring c (bs "latin1")))
                              [TStr (latin1_to_utf8 s); tl]).
@@ -959,8 +975,7 @@ Section RT.
         inversion H; subst.
       + apply rt_string'. exact E.
       + apply rt_string'. exact E.
-      + unfold uni_fits, len32 in E. apply andb_true_iff in E; destruct E as [E1 E2]; apply Z.leb_le in E1; apply N.ltb_lt in E2.
-        apply rt_unicode; assumption.
+      + apply rt_unicode'. exact E.
       + apply rt_bytes; assumption.
       + apply rt_bytestring'. exact E.
     - (* bytearray *)
